@@ -1,3 +1,4 @@
+import AquaVerif.Proofs.CropCalendar
 import AquaVerif.Generated.ResetFields
 import AquaVerif.Proofs.Seasons
 import AquaVerif.Proofs.Response
@@ -176,5 +177,41 @@ or added reset, or a new state field, breaks this obligation. -/
 theorem reset_fields_match_source :
     (∀ f ∈ Aqua.Generated.resetFieldsGen, f ∈ resetFields) ∧ (∀ f ∈ resetFields, f ∈ Aqua.Generated.resetFieldsGen) :=
   Aqua.Generated.resetFields_match
+
+
+/-! ### the crop calendar of a later season (`Model/CropCalendar.lean`; both code sites are tied to the Python:
+`compute_crop_calendar` by the `crop_calendar` replay, the thermal-calendar block of
+`reset_initial_conditions` by the `reset_calendar` replay) -/
+
+section calendar
+variable {α : Type} [Field α] [LinearOrder α] [IsStrictOrderedRing α]
+
+/-- **Crop-calendar clause.**  For a thermal-time crop the calendar that the season-start reset
+recomputes from the temperature records from that season's planting date on — days to maturity, to
+maximum canopy, to the end of canopy development, to the start and end of yield formation, the length
+of yield formation and of flowering, and the harvest-index growth coefficients derived from them —
+is exactly what the initialisation of a run started on that planting date computes (`calendarInitHI`:
+`compute_crop_calendar` followed by the harvest-index block of `compute_variables`), errors included.
+Premise: `Tbase ≤ Tupp` or `0 ≤ Maturity` (with `Tupp < Tbase` pandas and numpy clip differently; the
+calendars then still agree unless the maturity threshold is negative —
+`Aqua.CalExample.reset_ne_init`). -/
+theorem later_season_calendar_is_fresh_calendar (F : Fn α) (fuel : Nat) (c : CalGDDIn α)
+    (h : c.tbase ≤ c.tupp ∨ 0 ≤ c.maturity) (hi0 hiIni : α) (temps : List (α × α)) :
+    calendarReset F fuel (c.toReset F hi0 hiIni) temps
+      = (calendarInitHI F fuel c hi0 hiIni temps).map CalResetOut.ofInit :=
+  reset_eq_init F fuel c h hi0 hiIni temps
+
+/-- the daily degree days counted by the reset are those of the daily `growing_degree_day` process,
+for every method and with no premise — the thermal clock of a later season runs as in a fresh run -/
+theorem reset_degree_days_are_the_daily_ones (m : GddMethod) (tbase tupp tmin tmax : α) :
+    growingDegreeDay m.toNat tupp tbase tmax tmin = some (gddDayReset m tbase tupp tmin tmax) :=
+  gddDayReset_eq_daily m tbase tupp tmin tmax
+
+/-- and so are the ones counted at initialisation when `Tbase ≤ Tupp` -/
+theorem init_degree_days_are_the_daily_ones (m : GddMethod) {tbase tupp : α} (h : tbase ≤ tupp)
+    (tmin tmax : α) :
+    growingDegreeDay m.toNat tupp tbase tmax tmin = some (gddDayInit m tbase tupp tmin tmax) :=
+  gddDayInit_eq_daily m h tmin tmax
+end calendar
 
 end Aqua.C08
